@@ -184,6 +184,28 @@ def run_segment(seg: Dict[str, Any]) -> Dict[str, Any]:
 
 
 def _run_segment(seg: Dict[str, Any], out: Dict[str, Any]) -> None:
+    """A failure of the set-up (configuring the store, accepting modules, importing the program: all
+    valid uses of the public API) in "dds" mode is the observation of every step of the segment -
+    the pipeline cannot run - and not a failure of the machinery."""
+    try:
+        ctx = _setup_segment(seg)
+    except BaseException as e:
+        if seg.get("mode", "dds") != "dds" or not any(st["op"] in ("eval", "load") for st in seg["steps"]):
+            raise
+        info = _exc_info(e)
+        info["setup"] = True
+        info["injected"] = False
+        for st in seg["steps"]:
+            if st["op"] == "load":
+                out["steps"].append({"op": "load", "loads": {p: {"err": info} for p in st["paths"]}})
+            else:
+                out["steps"].append({"op": st["op"], "result": None, "err": info if st["op"] == "eval" else None,
+                                     "log": [], "ops": [], "ctx_clean": True})
+        return
+    _run_steps(seg, out, *ctx)
+
+
+def _setup_segment(seg: Dict[str, Any]):
     sys.dont_write_bytecode = True
     root = seg["root_dir"]
     if root not in sys.path:
@@ -235,7 +257,10 @@ def _run_segment(seg: Dict[str, Any], out: Dict[str, Any]) -> None:
         else:
             mods[mn] = importlib.import_module(mn)
     L = importlib.import_module("_vlog") if seg.get("vlog", True) else None
+    return (root, mode, ops, dds, mods, L)
 
+
+def _run_steps(seg: Dict[str, Any], out: Dict[str, Any], root, mode, ops, dds, mods, L) -> None:
     for st in seg["steps"]:
         op = st["op"]
         obs: Dict[str, Any] = {"op": op}
